@@ -42,7 +42,8 @@ for n in names:
             rc, out = sh(f'go test -vet=off -count=1 -timeout 20m {p}{extra}', wt)
             tests[p] = 'pass' if rc == 0 else 'FAIL: ' + out[-400:]
         res['existing_tests_with_change'] = tests
-        loc = meta.get('demo_location', '').split()[0]
+        toks = [t.strip('`\'",;()') for t in meta.get('demo_location', '').split()]
+        loc = next((t for t in toks if t.endswith('.go') and t.split('/')[0] in ('server', 'pkg', 'tools', 'client', 'tests', 'plugin', 'cmd')), next((t for t in toks if t.endswith('.go') and '/' in t and not t.startswith('/')), toks[0] if toks else ''))
         demo = [f for f in os.listdir(d) if f.startswith('demo')][0]
         cmd = meta.get('demo_cmd', '')
         if loc and cmd:
